@@ -80,6 +80,10 @@ def run(rep):
             rep.violation({'kind': 'scale', 'clause': 'volume-of-repeated-trajectory-is-not-the-repeated-volume', 'samples': int(K * small_T * A),
                            'voxel_sum': int(vb.sum()), 'expected_sum': int(K * small_T * A)})
         recs.append(base)
+    # scale along ONE axis: elongated cells with more than 2^16 (thorough: 2^17) voxels on the long axis, judged by TraceGrid like any other
+    for axis in range(3):
+        recs.append(grid_drive.volume_record_long(rng, n + 7000 + axis, axis, 15000 if quick else 26000))
+    rep.extra['elongated_cells'] = {'voxels_on_long_axis': recs[-1]['dims'][2]}
     nt = sum(1 for r in recs if r['act'] == 'Volume' and len(r['cells']) >= 2)
     for r in recs[:3]:
         rep.sample({k: r[k] for k in ('dims', 'L', 'res', 'cells', 'total', 'meta') if k in r})
